@@ -1,0 +1,9 @@
+//go:build !verif
+// +build !verif
+
+package gocql
+
+// vEvent marks a verification trace point (an atomic action of the connection / pool code that
+// the machine-checked models in /verif name as a label). Without the "verif" build tag it is empty
+// and inlined away.
+func vEvent(kind, a, b int) {}
